@@ -51,8 +51,8 @@ WITNESSES = {
 }
 # thorough tier: larger scaled constants
 THOROUGH = {
-    "T3Tag": {"Nmaxbs": "{0, 1, 2, 3, 4, 5}", "Nbrs": "{1, 2, 3, 4}", "Nbws": "{0, 1, 2, 3, 4}"},
-    "T4Tag": {"Mfss": "{5, 6, 7, 8, 9, 10, 11, 12}", "OldLens": "{0, 1, 2, 3, 4, 5, 6, 7, 8}",
+    "T3Tag": {"Nmaxbs": "{0, 1, 2, 3, 4, 5, 6}", "Nbrs": "{1, 2, 3, 4}", "Nbws": "{0, 1, 2, 3, 4}"},
+    "T4Tag": {"Mfss": "{5, 6, 7, 8, 9, 10, 11, 12, 13, 14}", "OldLens": "{0, 1, 2, 3, 4, 5, 6, 7, 8, 9, 10}",
               "MLes": "{2, 3, 4, 5, 6, 7}", "MLcs": "{1, 2, 3, 4, 5, 6, 7}"},
 }
 
@@ -399,10 +399,10 @@ def uniq(xs, lo, hi):
 def t3_lengths(L, rnd, full):
     cap = L["nmaxb"] * 16
     nbw = max(1, L["nbw"])
-    c = [0, 1, 15, 16, 17, 31, 32, 33, nbw * 16 - 1, nbw * 16, nbw * 16 + 1, 2 * nbw * 16, 2 * nbw * 16 + 1,
-         cap - 17, cap - 16, cap - 15, cap - 1, cap, cap + 1]
+    c = [0, 1, 16, 17, nbw * 16, nbw * 16 + 1, 2 * nbw * 16 + 1, cap - 16, cap - 15, cap - 1, cap, cap + 1]
     if full:
-        c += [rnd.randint(0, cap + 1) for _ in range(6)] + [254, 255, 256, 257, 4095, 4096, 4097]
+        c += [15, 31, 32, 33, nbw * 16 - 1, 2 * nbw * 16, cap - 17] + [rnd.randint(0, cap + 1) for _ in range(6)]
+        c += [254, 255, 256, 257, 4095, 4096, 4097]
     return uniq(c, 0, cap + 1)
 
 
@@ -410,12 +410,12 @@ def t4_lengths(L, rnd, full):
     ns = L["tlv"] - 2
     cap = L["mfs"] - ns
     mlc = L["mlc"]
-    c = [0, 1, mlc - ns - 1, mlc - ns, mlc - ns + 1, 2 * mlc - ns - 1, 2 * mlc - ns, 2 * mlc - ns + 1,
-         3 * mlc - ns, 253, 254, 255, 256, 257, 258, cap - mlc, cap - 1, cap, cap + 1]
+    c = [0, 1, mlc - ns, mlc - ns + 1, 2 * mlc - ns, 2 * mlc - ns + 1, 253, 254, 256, 257, cap - 1, cap, cap + 1]
     if full:
+        c += [mlc - ns - 1, 2 * mlc - ns - 1, 3 * mlc - ns, 255, 258, cap - mlc]
         c += [rnd.randint(0, cap + 1) for _ in range(6)] + [k * mlc - ns + d for k in (4, 5) for d in (-1, 0, 1)]
-    if mlc <= 2:                        # one command per byte: keep the traces short
-        c = [x for x in c if x <= 70 or x >= cap - 1]
+    maxcmds = 1600 if full else 120          # one command per MLc bytes: keep the traces short
+    c = [x for x in c if x > cap or (x + ns) // max(1, min(mlc, 255)) <= maxcmds]
     return uniq(c, 0, cap + 1)
 
 
@@ -550,6 +550,7 @@ def gen_cases(pid, tier, seed):
             ms = uniq([0, 1, L["mlc"] - L["tlv"] + 2, L["mlc"] - L["tlv"] + 3, 2 * L["mlc"], 256, cap], 0, cap)
             if full:
                 ms = t4_lengths(L, rnd, False)[:-1]
+            ms = [m for m in ms if (m + 4) // min(L["mlc"], 255) <= (600 if full else 120)]
             plan += [("t4", L, m) for m in ms]
         for kind, L, m in plan:
             n[0] += 1
@@ -579,9 +580,11 @@ def gen_cases(pid, tier, seed):
             cap = L["mfs"] - (L["tlv"] - 2)
             for m in (uniq([0, 1, L["mlc"], cap - 1, cap, cap + 1, cap + 2], 0, cap + 2) if not full
                       else t4_lengths(L, rnd, True) + [cap + 2]):
-                add("t4", L, "write", mlen=m)
+                if m > cap or (m + 4) // min(L["mlc"], 255) <= (1600 if full else 120):
+                    add("t4", L, "write", mlen=m)
             for wipe in (None, 0xA9, 0, 0x1FF):
-                add("t4", L, "format", wipe=wipe)
+                if cap // min(L["mlc"], 255) <= (1600 if full else 200):
+                    add("t4", L, "format", wipe=wipe)
     return cases
 
 
@@ -635,11 +638,11 @@ def mc_jobs(pid, tier):
                              replay=dict(part=PART, kind="mc", module=module, pid=pid))
             ck.cover(states=r.distinct, transitions=r.generated)
             ck.cover(**{"mc_%s" % module: dict(distinct=r.distinct, generated=r.generated, depth=r.depth,
-                                               wall=round(r.wall, 1), invariants=MC_INVS[pid][module])})
+                                               invariants=MC_INVS[pid][module])})
         return book
 
     def wit_job(module, cfg, need, label, errfmt):
-        hit, _ = tlc.witnesses(module + ".tla", cfg, TAG + "/" + pid + "/" + label, need, workers=2, timeout=300)
+        hit, _ = tlc.witnesses(module + ".tla", cfg, TAG + "/" + pid + "/" + label, need, workers=1, timeout=300)
         missing = sorted(set(need) - hit)
 
         def book(ck):
@@ -707,7 +710,12 @@ def classify(case, tr, verdict):
     kind = why[0] if why else "?"
     what = case["kind"] + ("/format" if case["op"] == "format" else "")
     if kind == "inv":
-        return "%s:inv:%s@%s:%s" % (what, "+".join(why[1]), act, layout_class(case)), set(why[1])
+        cls = layout_class(case)
+        # the input class that matters for the failing clause (layouts may combine several)
+        relevant = {"RoundTrip": "mlc<nlen_size", "WriteOk": "mlc>255", "FreshOk": "mle>256"}
+        if len(why[1]) == 1 and why[1][0] in relevant and case["kind"] == "t4":
+            cls = relevant[why[1][0]] if relevant[why[1][0]] in cls.split(",") else "std"
+        return "%s:inv:%s@%s:%s" % (what, "+".join(why[1]), act, cls), set(why[1])
     if kind == "view":
         return "%s:view-differs-from-RefRead@%s:%s" % (what, act, layout_class(case)), {"FreshOk"}
     pc = why[1] if len(why) > 1 else "?"
@@ -732,7 +740,7 @@ def selftest_traces(traces):
             b["id"] = tr["id"] + "~dropped"
             out += [(kind, tr["id"], a), (kind, tr["id"], b)]
             n += 1
-            if n == 3:
+            if n == 6:
                 break
         if n == 0:
             raise tlc.TLCError("binding self-test: no %s trace with >= 3 commands" % kind)
@@ -755,7 +763,7 @@ def conformance_stage(ck, pid, tier, seed):
         batch = [(tr, c) for tr, c in traces if c["kind"] in kinds]
         extra = [t for k, src, t in self_t if k in kinds]
         verdicts, st = tlc.validate_traces("Trace_%s.tla" % module, "Trace_%s.cfg" % module, TAG + "/" + pid,
-                                           [tr for tr, c in batch] + extra, shards=12,
+                                           [tr for tr, c in batch] + extra, shards=10,
                                            timeout=600 if tier == "quick" else 2400)
         st_all["states"] += st["states"]
         st_all["transitions"] += st["transitions"]
@@ -766,6 +774,8 @@ def conformance_stage(ck, pid, tier, seed):
                 if verdicts[t["id"]][0] == "ACCEPT":
                     raise tlc.TLCError("binding vacuous: corrupted trace %s accepted" % t["id"])
         selftested.append((module, tested))
+        if tested == 0:      # every candidate source trace was itself rejected (reported below)
+            ck.note("tags34: binding self-test for %s had no accepted source trace" % module)
         for tr, c in batch:
             v = verdicts[tr["id"]]
             nev += len(tr["ev"])
@@ -787,7 +797,8 @@ def conformance_stage(ck, pid, tier, seed):
                          emu=sum(1 for _, c in traces if c["kind"] == "emu"),
                          t4=sum(1 for _, c in traces if c["kind"] == "t4"),
                          binding_selftest="corrupted data byte / dropped W event variants rejected: %s" % selftested))
-    for tr, c in traces[:1] + [x for x in traces if x[1]["kind"] == "t4"][:1]:
+    rich = [x for x in traces if x[1].get("mlen", 0) > 16 and len(x[0]["ev"]) >= 5]
+    for tr, c in [x for x in rich if x[1]["kind"] != "t4"][:1] + [x for x in rich if x[1]["kind"] == "t4"][:1]:
         evs = []
         for e in tr["ev"][:4]:
             e = dict(e)
